@@ -91,6 +91,26 @@ func FaultSuite(l *evlog.Log, clients []ClientSel, k1Scen []string, nFirst int, 
 			}
 		}
 	}
+	// slow paths: with a round-trip time around or above the initial PTO the endpoints retransmit their
+	// first flights spuriously, so that retransmitted Initial / Handshake data is coalesced with packets of
+	// the next encryption levels - fault-free and with one drop among the first datagrams
+	for _, cl := range clients {
+		for _, rttMs := range []int{120, 250, 400, 700} {
+			for _, sc := range []string{"S1", "S6"} {
+				mk := func(name string, fs []simworld.Fault) {
+					add(&ConnCase{Name: fmt.Sprintf("slow/%s/%s/v2=%v/rtt%d/%s", sc, cl.Client, cl.V2, rttMs, name), Client: cl.Client, V2: cl.V2,
+						Schedule: simworld.Schedule{Faults: fs}, Transfer: Scenario(sc, uint64(idx)), Datagrams: sc == "S5"})
+					out[len(out)-1].RTTms = rttMs
+				}
+				mk("clean", nil)
+				for d := 0; d < 2; d++ {
+					for o := 0; o < 4; o++ {
+						mk(fmt.Sprintf("d%d-o%d-drop", d, o), []simworld.Fault{{Dir: wiretap.Dir(d), Ordinal: o, Action: simworld.Action{Kind: "drop"}}})
+					}
+				}
+			}
+		}
+	}
 	scen := []string{"S1", "S2", "S3", "S4", "S5", "S6"}
 	rng := l.Rand("faultsuite")
 	for _, nk := range []struct{ k, n int }{{2, nK2}, {3, nK3}} {
@@ -111,6 +131,11 @@ func FaultSuite(l *evlog.Log, clients []ClientSel, k1Scen []string, nFirst int, 
 			}
 			add(&ConnCase{Name: fmt.Sprintf("k%d/%s/%s/v2=%v/%04d", nk.k, sc, cl.Client, cl.V2, i), Client: cl.Client, V2: cl.V2, Schedule: simworld.Schedule{Faults: fs},
 				Transfer: Scenario(sc, rng.Uint64()), Datagrams: sc == "S5", Retry: retry, ServerCIDLen: []int{0, 0, 4, 8, 20}[rng.IntN(5)]})
+			// a third of the schedules on a slow path: round-trip times around and above the initial PTO make
+			// the endpoints retransmit spuriously, so that retransmissions meet the next encryption level
+			if rtts := []int{10, 10, 10, 10, 120, 250, 400, 700}; true {
+				out[len(out)-1].RTTms = rtts[rng.IntN(len(rtts))]
+			}
 		}
 	}
 	for i := 0; i < nRate; i++ {
